@@ -69,3 +69,46 @@ Lemma rollback_example :
   map (fun x => (o_calls x, o_routed x, o_subs x)) (skipn 10 (model_run w_rollback)) = [([Some (SExc EResponse)], [], [])] /\
   map (fun q => fst (fst (fst q))) (concat (map o_newreqs (model_run w_rollback))) = [QSub; QSub; QUnsub].
 Proof. vm_compute. repeat split; reflexivity. Qed.
+
+(* ---- the residual clean-shutdown clause (clause 6) on the D20 witness --------------------------------------------------------- *)
+(* on the model's own trace the residual clause holds - SID 0, the one left routed, is the SID of the renewal (request 3,
+   made by the renewal task at step 11, outstanding when the unsubscribe call was made at step 12) - while clause 5 fails *)
+Lemma d20_residual :
+  clause_clean_res w_d20 (model_run w_d20) = None /\ clause_clean w_d20 (model_run w_d20) = Some 21%nat /\
+  c_exempt (res_final cacc0 snap0 (i_sched w_d20) (model_run w_d20)) = [0%nat] /\
+  kf_inflight_obs w_d20 (model_run w_d20) = true /\ kf_inflight_obs w_clean (model_run w_clean) = false.
+Proof. vm_compute. repeat split; reflexivity. Qed.
+
+(* hand-made observations: the same trace, but when the unsubscribe call has returned (step 21) a second SID is still
+   routed as well / another SID is routed instead of the one that was being renewed / the profile still holds a
+   subscription / the call raised: each fails the residual clause at that step *)
+Definition set_routed (x : snap) (r : list (sid * svc)) : snap :=
+  mkSnap (o_now x) (o_newreqs x) (o_out x) r (o_subs x) (o_live x) (o_lapsed x) (o_events x) (o_avail x) (o_calls x) (o_rtask x)
+         (o_idle x) (o_div x).
+Definition set_subs (x : snap) (r : list (sid * Z)) : snap :=
+  mkSnap (o_now x) (o_newreqs x) (o_out x) (o_routed x) r (o_live x) (o_lapsed x) (o_events x) (o_avail x) (o_calls x) (o_rtask x)
+         (o_idle x) (o_div x).
+Definition set_calls (x : snap) (r : list (option status)) : snap :=
+  mkSnap (o_now x) (o_newreqs x) (o_out x) (o_routed x) (o_subs x) (o_live x) (o_lapsed x) (o_events x) (o_avail x) r (o_rtask x)
+         (o_idle x) (o_div x).
+Definition tamper_last (f : snap -> snap) (o : observation) : observation :=
+  firstn 21 o ++ map f (skipn 21 o).
+
+Lemma d20_residual_sharp :
+  clause_clean_res w_d20 (tamper_last (fun x => set_routed x [(0%nat, 0%nat); (1%nat, 1%nat)]) (model_run w_d20)) = Some 21%nat /\
+  clause_clean_res w_d20 (tamper_last (fun x => set_routed x [(1%nat, 1%nat)]) (model_run w_d20)) = Some 21%nat /\
+  clause_clean_res w_d20 (tamper_last (fun x => set_subs x [(1%nat, 120)]) (model_run w_d20)) = Some 21%nat /\
+  clause_clean_res w_d20 (tamper_last (fun x => set_calls x [Some (SRet None); Some (SExc EKey)]) (model_run w_d20)) = Some 21%nat /\
+  clause_clean_res w_d20 (tamper_last (fun x => set_routed x []) (model_run w_d20)) = None.
+Proof. vm_compute. repeat split; reflexivity. Qed.
+
+(* ---- the residual loop-yields clause (clause 7) on the D19 witness ---------------------------------------------------------------- *)
+(* the run stops yielding at step 10, a loop iteration before which the renewal task was pending: the residual clause holds;
+   the same run cut short at step 9 (a response being delivered - no code runs there) or at step 1 (the iteration that
+   starts the subscribe call: no renewal task exists yet) fails it *)
+Definition div_from (n : nat) (o : observation) : observation := firstn n o ++ map (fun _ => div_snap) (skipn n o).
+Lemma d19_residual :
+  clause_yields_res w_d19 (model_run w_d19) = None /\ clause_yields w_d19 (model_run w_d19) = Some 10%nat /\
+  clause_yields_res w_d19 (div_from 9 (model_run w_d19)) = Some 9%nat /\
+  clause_yields_res w_d19 (div_from 1 (model_run w_d19)) = Some 1%nat.
+Proof. vm_compute. repeat split; reflexivity. Qed.
